@@ -74,20 +74,22 @@ impl RollingChecksum {
     #[cfg_attr(feature = "contracts", ensures(ret.b < Self::MOD, "b < MOD"))]
     #[cfg_attr(feature = "contracts", ensures(ret.count == data.len(), "count == input len"))]
     pub fn new(data: &[u8]) -> Self {
-        let mut a: u32 = 0;
-        let mut b: u32 = 0;
+        // Accumulate in 64 bits: the weighted sum passes 2^32 for ordinary data
+        // once a block reaches ~8 KiB, and a wrapped sum reduced mod 65521 is not
+        // the checksum of the block (2^32 is not a multiple of 65521).
+        let mut a: u64 = 0;
+        let mut b: u64 = 0;
         let len = data.len();
 
         for (i, &byte) in data.iter().enumerate() {
-            a = a.wrapping_add(u32::from(byte));
+            a += u64::from(byte);
             // Weight is (len - i) so first byte has highest weight
-            // Truncation is intentional: checksum uses 32-bit arithmetic
-            b = b.wrapping_add((len - i) as u32 * u32::from(byte));
+            b += (len - i) as u64 * u64::from(byte);
         }
 
         let result = Self {
-            a: a % Self::MOD,
-            b: b % Self::MOD,
+            a: (a % u64::from(Self::MOD)) as u32,
+            b: (b % u64::from(Self::MOD)) as u32,
             count: len,
         };
         debug_assert!(result.a < Self::MOD, "a must be < MOD after init");
@@ -139,16 +141,13 @@ impl RollingChecksum {
         let old = u32::from(old_byte);
         let new = u32::from(new_byte);
 
-        // Update a: remove old, add new
-        self.a = (self.a.wrapping_sub(old).wrapping_add(new)) % Self::MOD;
+        // Update a: remove old, add new. Add MOD before subtracting so the
+        // intermediate never goes negative (a wrapped u32 is off by 2^32 mod MOD).
+        self.a = (self.a + Self::MOD - old + new) % Self::MOD;
 
         // Update b: remove old's contribution (it was weighted by count), add new a
-        // Truncation is intentional: checksum uses 32-bit arithmetic
-        self.b = (self
-            .b
-            .wrapping_sub(self.count as u32 * old)
-            .wrapping_add(self.a))
-            % Self::MOD;
+        let weighted_old = ((self.count as u64 * u64::from(old_byte)) % u64::from(Self::MOD)) as u32;
+        self.b = (self.b + Self::MOD - weighted_old + self.a) % Self::MOD;
 
         debug_assert!(self.a < Self::MOD, "a must be < MOD after roll");
         debug_assert!(self.b < Self::MOD, "b must be < MOD after roll");
